@@ -1,14 +1,12 @@
 SPECIFICATION Spec
 CONSTANTS
   K = 4
-  MaxLeaves = 10
-  MaxDepth = 3
-  MaxN = 4
+  MaxLeaves = 28
+  MaxDepth = 5
+  MaxN = 0
   ScratchSize = "code"
   Finished = "last"
-  GrowLoop = "while"
+  GrowLoop = "if"
   EarlyExit = TRUE
 INVARIANT CodesOk
-INVARIANT Refines
-INVARIANT LevelData
 CHECK_DEADLOCK FALSE
